@@ -56,6 +56,11 @@ def run(ctx: Ctx, env):
                   f"AliasRewriter.{name}", f"{name} is overridden: non-matching nodes are no longer rebuilt by the generic transformer (C16)",
                   rm.loc(r[1]) if r else "")
 
+    # the generic transformer the rewriter inherits must rebuild every node and reach every contained node, or aliases in
+    # the skipped positions stay unreplaced (same rule as C16/R3)
+    from .c16 import check_generic_traversal
+    check_generic_traversal(ctx, env, TRANSFORMER, True, "R4.generic-transformer-complete")
+
     interp = env.interp()
     aliases = Sym("param", "field_aliases")
 
